@@ -16,12 +16,15 @@ OUT_OF_SCOPE = {"C20-r3-m3": "needs Codec(cumulative_payloads[d]=False): the pro
 ROUNDS = [("/var/tmp/mutants", "/var/tmp/seedres", ""), ("/var/tmp/mutants2", "/var/tmp/seedres2", "r2"),
           ("/var/tmp/mutants3", "/var/tmp/seedres3", "r3"), ("/var/tmp/mutants4", "/var/tmp/seedres4", "r4"),
           ("/var/tmp/mutants5", "/var/tmp/seedres5", "r5"), ("/var/tmp/mutants6", "/var/tmp/seedres6", "r6"),
-          ("/var/tmp/mutants7", "/var/tmp/seedres7", "r7"), ("/var/tmp/mutants8", "/var/tmp/seedres8", "r8")]
+          ("/var/tmp/mutants7", "/var/tmp/seedres7", "r7"), ("/var/tmp/mutants8", "/var/tmp/seedres8", "r8"), ("/var/tmp/mutants9", "/var/tmp/seedres9", "r9")]
 # changes that break another property's clause than the one they were written for: judged by that property's check
 OTHER_CHECK = {"C12-r7-m1": ("C10", "RankAttrs.getDefault() hands out the stored default box for float defaults: nothing goes wrong until a caller writes into "
                                     "the returned box, which is C10's clause (a returned default is a fresh box), not a content-dependence of ==, isEmpty or countValues"),
                "C12-r7-m2": ("C10", "nonEmpty() shares its leaf boxes with the original: the pruned copy is an equal tree at return time (C12); that a later "
                                     "update of one shows in the other is C10's no-aliasing clause"),
+               "C05-r9-m1": ("C14", "the destination keeps a stale active range after a second populate from a longer source: what the loops offer and leave behind "
+                                    "is unchanged (C05, whose check states that z's active range after the loop is C14's to judge); that the destination's active "
+                                    "range is the source's after a populate is C14's clause"),
                "C08-r4-m3": ("C10", "skips the deep copy of a depth-0 split: the result shares payload boxes with the operand, which C08's statement "
                                     "(a property of the result at return time) does not exclude; it is C10's no-aliasing clause")}
 
@@ -86,7 +89,8 @@ def main():
                                  "r5": " (fifth round: Fiber- vs Tensor-level forms, compositions, aggregate sums, fast paths, cleanup, shared attributes)",
                                  "r6": " (sixth round: written for a region of the source, naming the property it breaks)",
                                  "r7": " (seventh round, ten properties: promises attacked least so far, feature interactions, longer histories, error paths)",
-                                 "r8": " (eighth round, all twenty properties: cooperating pairs of edits, error / early-exit paths, second uses after three or more operations)"}.get(tag, "")),
+                                 "r8": " (eighth round, all twenty properties: cooperating pairs of edits, error / early-exit paths, second uses after three or more operations)",
+                                 "r9": " (ninth round, ten properties, same directions as the eighth)"}.get(tag, "")),
                     "confirmed": {"against_repo_head": head, "demo_on_clean_tree_exit": r.get("demo_clean"), "patch_applies": True,
                                   "baseline_453_unchanged": True, "demo_with_patch_exit": r.get("demo_mutant"),
                                   "how": "tools/try_mutant.py (scratch worktree of /repo HEAD; git apply; tools/baseline.sh; demo.py; "
@@ -101,7 +105,7 @@ def main():
     with open(f"{OUT}/INDEX.md", "w") as fh:
         fh.write("# Seeded property-breaking changes\n\nEach directory holds patch.diff, demo.py (passes on the clean tree, fails with the "
                  "patch) and meta.json.\nAll keep the repository's 453-test baseline passing.  `check` is the result of the property's "
-                 "quick check on the patched tree\n(r2 = second round, written after the first-round repairs; r3..r5 = later property-based rounds; r6 = region-based round, the directory name carries the region; r7 = a property-based round for ten properties; r8 = a later-session round for all twenty: cooperating edits, error paths, second uses).\n\n")
+                 "quick check on the patched tree\n(r2 = second round, written after the first-round repairs; r3..r5 = later property-based rounds; r6 = region-based round, the directory name carries the region; r7 = a property-based round for ten properties; r8 = a later-session round for all twenty: cooperating edits, error paths, second uses; r9 = the same for ten properties).\n\n")
         fh.write("| property | mutant | verification | check | first violation keys | change | needs |\n|---|---|---|---|---|---|---|\n")
         for r in rows:
             fh.write("| " + " | ".join(str(x).replace("|", "/").replace("\n", " ") for x in r) + " |\n")
